@@ -107,7 +107,7 @@ def eval_case(kind, cfg, game, mode):
 def plan(ctx):
     """(space, cfg, mode)"""
     out = [(sp, K, "basic") for sp, K in pred.plan_spaces(ctx)]
-    rel = [("G2", "K0", "full"), ("G3|V12", "K0", "full"), ("G4|V6", "K0", "full"), ("G5|V4", "K0", "trans"), ("GP", "K0", "trans")]
+    rel = [("G2", "K0", "full"), ("G3|V12", "K0", "full"), ("G3|VF", "K0", "full"), ("G4|VF", "K0", "full"), ("G4|V6", "K0", "full"), ("G5|V4", "K0", "trans"), ("GP", "K0", "trans")]
     for K in spaces.PREDK[1:]:
         rel += [("G3|V12", K, "full")]
     if ctx.thorough:
@@ -116,7 +116,7 @@ def plan(ctx):
     return out + rel
 
 
-PARTS = dict(pred.PARTS, **{"G3|V12": 4, "G4|V6": 8, "G5|V4": 6})
+PARTS = dict(pred.PARTS, **{"G3|VF": 1, "G4|VF": 4, "G3|V12": 4, "G4|V6": 8, "G5|V4": 6})
 
 
 def units(ctx):
